@@ -227,6 +227,47 @@ func runC04(c *eng.Ctx) {
 
 	c.Rule("GUARD", "tsdb/tblstore/metricsdata.fieldReader.GetFieldData{only the requested field}", func() { fieldDataOnlyForHeldField(c) })
 
+	// ---- Last / First over several input blocks: decided by the SOURCE SLOT, not by the position of the block ---------------------------
+	c.Rule("SYMMETRY", "aggregation.DownSamplingMultiSeriesInto{order-sensitive fields compare source slots}", func() {
+		f := c.Fn("aggregation.DownSamplingMultiSeriesInto")
+		aggs := c.Some(f, invokeOn("", "Aggregate"), "fieldType.AggType().Aggregate(acc, value)")
+		// the loop variable over the source slots of one decoder
+		has := c.Some(f, eng.CallTo("pkg/encoding.TSDDecoder.HasValueWithSlot"), "decoder.HasValueWithSlot(slot)")
+		slotV := eng.CallArgs(has[0].Instr.(*ssa.Call))[0]
+		// a comparison between the current source slot and a remembered slot (an element of a per-target-position array)
+		cmp := false
+		for _, b := range eng.BlocksT(f) {
+			for _, in := range b.Instrs {
+				bo, ok := in.(*ssa.BinOp)
+				if !ok {
+					continue
+				}
+				switch bo.Op {
+				case token.LSS, token.GTR, token.LEQ, token.GEQ:
+				default:
+					continue
+				}
+				isSlot := func(v ssa.Value) bool { return eng.DependsOn(v, func(x ssa.Value) bool { return x == slotV }) }
+				isRemembered := func(v ssa.Value) bool {
+					return eng.DependsOn(v, func(x ssa.Value) bool {
+						u, ok := x.(*ssa.UnOp)
+						if !ok || u.Op != token.MUL {
+							return false
+						}
+						ia, ok := u.X.(*ssa.IndexAddr)
+						return ok && !strings.Contains(ia.X.Type().String(), "float64") && !strings.Contains(ia.X.Type().String(), "TSDDecoder")
+					})
+				}
+				if isSlot(bo.X) && isRemembered(bo.Y) || isSlot(bo.Y) && isRemembered(bo.X) {
+					cmp = true
+				}
+			}
+		}
+		c.Check(cmp, "slots-compared-across-blocks", aggs[0].Instr, f,
+			"the input blocks of one merge are folded one after the other, and Aggregate(acc, v) of a Last (First) field simply returns v (acc): which block comes last is an accident of file order (a Go map iteration in doRollupWork). For these field types the fold therefore remembers, per target position, the source slot of the value it holds and replaces it only by a value of a later (earlier) source slot",
+			"no comparison between the current source slot and a remembered slot exists: the last / first BLOCK wins")
+	})
+
 	// ---- slot of a timestamp inside its family: the offset from the family start is never folded below the family's length ------
 	c.Rule("LAYOUT", "pkg/timeutil.{day,month,year}.CalcSlot{no wrap-around inside one family}", func() {
 		// length of one family per calculator (a table, confirmed by reading CalcFamilyStartTime / CalcFamilyEndTime):
